@@ -48,7 +48,7 @@ def main():
         "body / slow reader of a 60 KiB reply; an upstream TCP reply delivered in two pieces (cut inside / right after the length prefix / mid-body) while further queries arrive in the gap; bursts of concurrent TCP queries sharing the upstream TCP channel; listeners v4-only, "
         "v6-only and dual-stack reached over v4 and v6 on non-default local addresses; per query: exactly one response, id and answer "
         "are its own, response source = query destination, SERVFAIL (not silence) when the upstream stays silent, also on a second server "
-        "whose upstream first answered later and later (2.5 .. 40 s, first transmission only); "
+        "whose upstream first answered later and later (2.5 .. 40 s, first transmission only); an upstream TCP reply after 12 s and, on an upstream that accepts TCP but stays silent, three TCP queries 45 s apart (each must get SERVFAIL within 170 s); "
         "distinct = (transport, listener, upstream behaviour, outcome)", floor=100)
     d = base.scratch_dir("c07")
     procs = []
@@ -190,8 +190,33 @@ def main():
             plans[c].variant = "silent-after-late-replies"
             one_udp(c, "second", 100.0)
 
+        def tcp_late_then_trickle():
+            # (a) an upstream TCP reply that takes 12 s: the client must get exactly one response (the answer, or SERVFAIL if the
+            # server gives up first), and whatever happened, the upstream TCP path must still work afterwards
+            c = new_case("late", delay=12.0)
+            plans[c].variant = "tcp-late"
+            one_tcp(c, "second", 60.0)
+            c = new_case("ok")
+            plans[c].variant = "tcp-after-late-reply"
+            one_tcp(c, "second", 15.0)
+            # (b) the upstream accepts TCP but never answers, and further TCP queries keep trickling in: each of them must
+            # still get SERVFAIL within the bound (the first one is the one at risk)
+            ts = []
+            for k in range(3):
+                c = new_case("silent")
+                plans[c].variant = "tcp-silent-trickle"
+                t = threading.Thread(target=one_tcp, args=(c, "second", 170.0))
+                t.start()
+                ts.append(t)
+                if k < 2:
+                    time.sleep(45.0)
+            for t in ts:
+                t.join(timeout=200)
+
         slow_thread = threading.Thread(target=slow_then_silent)
         slow_thread.start()
+        trickle_thread = threading.Thread(target=tcp_late_then_trickle)
+        trickle_thread.start()
 
         # ---- phase A: UDP batches with reordering and faults, per listener
         nbatch = 256 if thorough else 96
@@ -333,6 +358,7 @@ def main():
             silent_threads.append(threading.Thread(target=one_tcp, args=(c, "v4only", 170.0)))
         run_batch(silent_threads)
         slow_thread.join(timeout=450)
+        trickle_thread.join(timeout=450)
 
         # ---- judge the history
         up_events = ups[0].events + ups[1].events
